@@ -19,6 +19,7 @@ import (
 	"os"
 	"sort"
 	"strconv"
+	"sync"
 
 	crypto "github.com/dappledger/AnnChain/gemmill/go-crypto"
 	wire "github.com/dappledger/AnnChain/gemmill/go-wire"
@@ -735,9 +736,177 @@ func main() {
 			runBigTree(c, tr)
 		case "sizes":
 			runSizes(c, tr)
+		case "conc":
+			runConcurrent(c, tr)
 		default:
 			c.fail("error", false, "unknown-kind", "unknown trace kind", nil, nil)
 		}
 	}
 	rep.Emit()
+}
+
+// ---------------------------------------------------------------------------------------------------------------
+// Concurrent deliveries ("conc" traces): G goroutines hand a multiset of parts (duplicates of the same index, now and
+// then a tampered one) to ONE real PartSet at the same moment (start barrier), round after round.  The recorded
+// results must be linearizable with PartSet.tla as the sequential specification.  All calls of a round overlap, so a
+// linearization is any order of the round's calls (rounds are ordered in real time); under PartSet.tla's Result
+// (errIndex, then dup = (false,nil) if the index is held, then the proof check) such an order exists iff, per index:
+//   - held before the round: every call returns (false, nil);
+//   - otherwise, if the round delivers the genuine part: exactly one genuine delivery returns added, every other
+//     genuine delivery returns (false, nil), a tampered delivery returns (false, nil) or ErrPartSetInvalidProof;
+//   - otherwise every (tampered) delivery returns ErrPartSetInvalidProof;
+// and after the round Count() = number of held indices <= Total, every held slot holds the genuine bytes,
+// IsComplete() <=> every slot is filled, and a complete set reads back the original bytes.
+
+type concCall struct {
+	idx      int
+	tampered bool
+	added    bool
+	err      error
+	pv       interface{}
+}
+
+func runConcurrent(c *ctx, tr mbt.Trace) {
+	seed := int64(mbt.Int(tr.Cfg["seed"]))
+	trials := mbt.Int(tr.Cfg["trials"])
+	ps := mbt.Int(tr.Cfg["partSize"])
+	G := mbt.Int(tr.Cfg["G"])
+	rng := rand.New(rand.NewSource(seed))
+	for trial := 0; trial < trials; trial++ {
+		total := 1 + rng.Intn(4)
+		L := (total-1)*ps + 1 + rng.Intn(ps)
+		data := make([]byte, L)
+		rng.Read(data)
+		full := types.NewPartSetFromData(data, ps)
+		recv := types.NewPartSetFromHeader(full.Header())
+		held := map[int]bool{}
+		rep.Steps++
+		for round := 0; round < 3 && len(held) < total; round++ {
+			// the multiset of this round: G deliveries; in the last round every missing part, twice
+			var calls []*concCall
+			if round == 2 {
+				for i := 0; i < total; i++ {
+					calls = append(calls, &concCall{idx: i}, &concCall{idx: i})
+				}
+			} else {
+				first := rng.Intn(total)
+				for g := 0; g < G; g++ {
+					cl := &concCall{idx: first}
+					if g > 0 && rng.Intn(3) == 0 {
+						cl.idx = rng.Intn(total)
+					}
+					if rng.Intn(6) == 0 {
+						cl.tampered = true
+					}
+					calls = append(calls, cl)
+				}
+			}
+			c.act = fmt.Sprintf("trial %d round %d: %d parts of %d bytes, concurrent deliveries %v", trial, round, total, ps, describe(calls))
+			start := make(chan struct{})
+			var wg sync.WaitGroup
+			for _, cl := range calls {
+				cl := cl
+				// a fresh object per delivery, like a part decoded from a peer's message
+				p := viaWire(full.GetPart(cl.idx))
+				if cl.tampered {
+					p.Bytes[len(p.Bytes)/2] ^= 0x10
+				}
+				wg.Add(1)
+				go func() {
+					defer wg.Done()
+					<-start
+					cl.pv, _ = mbt.Catch(func() { cl.added, cl.err = recv.AddPart(p, true) })
+				}()
+			}
+			close(start)
+			wg.Wait()
+			rep.Checks += len(calls)
+			rep.Count("concurrent_deliveries")
+			// linearizability against the sequential specification
+			byIdx := map[int][]*concCall{}
+			for _, cl := range calls {
+				if cl.pv != nil {
+					c.fail("panic", true, "AddPart-panic", fmt.Sprintf("%s: %v", c.act, cl.pv), nil, nil)
+					return
+				}
+				byIdx[cl.idx] = append(byIdx[cl.idx], cl)
+			}
+			for idx, cs := range byIdx {
+				nAdded, genuine := 0, 0
+				for _, cl := range cs {
+					if !cl.tampered {
+						genuine++
+					}
+				}
+				for _, cl := range cs {
+					got := classify(cl.added, cl.err)
+					switch {
+					case held[idx]:
+						if got != "dup" {
+							c.fail("property", true, "Linearizable", fmt.Sprintf("%s: index %d was already held, a delivery returned %s", c.act, idx, got), "dup", got)
+						}
+					case cl.tampered:
+						if got != "errProof" && !(got == "dup" && genuine > 0) {
+							c.fail("property", true, "Linearizable", fmt.Sprintf("%s: tampered delivery for index %d returned %s", c.act, idx, got), "errProof", got)
+						}
+						if cl.added {
+							c.fail("property", true, "OnlyGenuineAccepted", fmt.Sprintf("%s: tampered part %d accepted", c.act, idx), nil, nil)
+						}
+					default:
+						if got == "added" {
+							nAdded++
+						} else if got != "dup" {
+							c.fail("property", true, "GenuineRejected", fmt.Sprintf("%s: genuine part %d refused: %s", c.act, idx, got), nil, nil)
+						}
+					}
+				}
+				genuineFirst := genuine
+				if !held[idx] && genuineFirst > 0 {
+					if nAdded != 1 {
+						c.fail("property", true, "Linearizable", fmt.Sprintf("%s: the genuine part %d was delivered %d times at once and AddPart answered added=true %d times; no sequential order of the calls gives that (PartSet.tla: added exactly once, then (false,nil))", c.act, idx, genuineFirst, nAdded), 1, nAdded)
+					}
+					if nAdded >= 1 {
+						held[idx] = true
+					}
+				}
+			}
+			// the state after the round
+			got := project(recv)
+			rep.Checks++
+			if got.Count != len(held) || got.Count > total {
+				c.fail("property", true, "CountMatchesHeld", fmt.Sprintf("%s: Count() = %d, parts held = %d, total = %d", c.act, got.Count, len(held), total), len(held), got.Count)
+			}
+			if len(got.Have) != len(held) {
+				c.fail("property", true, "Linearizable", fmt.Sprintf("%s: slots filled %v, parts accepted %d", c.act, got.Have, len(held)), nil, nil)
+			}
+			for _, idx := range got.Have {
+				if got.Bytes[idx] != string(full.GetPart(idx).Bytes) {
+					c.fail("property", true, "StoredGenuine", fmt.Sprintf("%s: bytes held at index %d are not the genuine part", c.act, idx), nil, nil)
+				}
+			}
+			if got.Complete != (len(got.Have) == total) {
+				c.fail("property", true, "ReassemblyExact", fmt.Sprintf("%s: IsComplete() = %v with %d of %d slots filled (Count %d)", c.act, got.Complete, len(got.Have), total, got.Count), len(got.Have) == total, got.Complete)
+			}
+			if got.Complete && len(got.Have) == total {
+				var b []byte
+				var err error
+				if pv, _ := mbt.Catch(func() { b, err = ioutil.ReadAll(recv.GetReader()) }); pv != nil || err != nil || !bytes.Equal(b, data) {
+					c.fail("property", true, "ReassemblyExact", fmt.Sprintf("%s: reassembled %d bytes (err %v, panic %v), original %d", c.act, len(b), err, pv, L), nil, nil)
+				}
+				rep.Count("reassembled")
+			}
+		}
+	}
+}
+
+func describe(calls []*concCall) []string {
+	var o []string
+	for _, cl := range calls {
+		s := fmt.Sprintf("%d", cl.idx)
+		if cl.tampered {
+			s += "x"
+		}
+		o = append(o, s)
+	}
+	return o
 }
